@@ -339,7 +339,7 @@ Proof.
   split; [reflexivity|]. cbv zeta. intros H.
   destruct (H 0 (Some q1b) (Some r1) false) as (r & _ & Hin).
   - vm_compute. auto.
-  - vm_compute in Hin. destruct Hin as [Hin|(rc & n & an & q & Hin & _)]; exact Hin.
+  - destruct Hin as [Hin|(rc & n & an & q & Hin & _)]; vm_compute in Hin; exact Hin.
 Qed.
 
 Lemma nonvacuous :
